@@ -266,6 +266,16 @@ pub fn replay(args: &Args) {
             });
         }
         iface.routes_mut().add_default_ipv4_route(Ipv4Address::new(10, 0, 0, 254)).unwrap();
+        // a route through one of the interface's own addresses (what a host that answers for a prefix would have, together
+        // with `any_ip`, which stays off here): packets for that prefix are still not addressed to the interface
+        iface.routes_mut().update(|r| {
+            let _ = r.push(smoltcp::iface::Route {
+                cidr: IpCidr::new(IpAddress::v4(192, 168, 1, 0), 24),
+                via_router: IpAddress::v4(10, 0, 0, 1),
+                preferred_until: None,
+                expires_at: None,
+            });
+        });
         let mut sockets = SocketSet::new(vec![]);
         let mut ts = tcp::Socket::new(tcp::SocketBuffer::new(vec![0u8; 512]), tcp::SocketBuffer::new(vec![0u8; 512]));
         ts.listen(80).unwrap();
